@@ -9,6 +9,7 @@ import FoxModel.Spec.Context
       l Router.Lookup     t Txn.Lookup                 L Lookup, write, Clone          W Lookup, CloneWith
       w CloneWith inside a direct handler               c Clone inside a direct handler (after writing)
       I Clone inside an ignored-trailing-slash handler  T the routing tree is replaced (new pool)
+      V the hostname route is registered (new pool; `v` before it is a bad op)
     ctx <TAB> conc:…               concurrent mix (runtime only: M=S=ok)
 
   The model side threads ONE recycled context (and a spare for CloneWith) through the whole sequence, dirtied by every
@@ -58,6 +59,7 @@ def shapeOf (op : Char) (k : Nat) : Option (Branch × LookupOut × List LookupOu
 structure St where
   H : Heap := ⟨fun _ => []⟩
   pool : List Ctx := []
+  hostReg : Bool := false       -- the hostname route is registered (op V)
   nextBuf : Nat := 1
   written : List Nat := []      -- ext writers that have been written to
   mOut : List String := []
@@ -88,6 +90,8 @@ def dirty (k : Nat) (hijack : Bool) (own : Bool) (c : Ctx) : Ctx :=
 def step (st : St) (op : Char) (k : Nat) : St :=
   let env0 := envOf st.written
   if op == 'T' then ({ st with pool := [] }).emit "-" "-"
+  else if op == 'V' then ({ st with pool := if st.hostReg then st.pool else [], hostReg := true }).emit "-" "-"
+  else if op == 'v' && !st.hostReg then st.emit "bad-op" "bad-op"
   else if op == 'l' || op == 't' || op == 'L' || op == 'W' then
     -- manual lookup of the direct shape with a caller supplied writer (id k)
     let o : LookupOut := { found := some 1, params := [(idKey, tok k)] }
@@ -146,7 +150,7 @@ def handle (fields : List String) : String :=
     let ops := (body.splitOn ";").filter (· ≠ "")
     let (st, _) := ops.foldl (fun (acc : St × Nat) op => (step acc.1 (op.toList.headD '?') acc.2, acc.2 + 1)) ({}, 0)
     let kinds := ops.foldl (fun (acc : List String) op => if acc.contains op then acc else acc ++ [op]) []
-    let reqs := (ops.filter (· ≠ "T")).length
+    let reqs := (ops.filter (fun o => o ≠ "T" && o ≠ "V")).length
     "M=" ++ join st.mOut.reverse "|" ++ "\tS=" ++ join st.sOut.reverse "|" ++ "\tT=" ++ join kinds "," ++
       "\tN=" ++ (if reqs ≥ 2 then "1" else "0")
   | _ => "M=bad-case"
